@@ -138,8 +138,11 @@ def run(cfg):
     for mod, name in ((gp, 'compare_pytz.tdgenerator'), (gd, 'compare_dateutil.tdgenerator')):
         cf = mod.fn('TestDataGenerator._create_test_item')
         dicts = [n for n in ast.walk(cf.node) if isinstance(n, ast.Return) and isinstance(n.value, ast.Dict)]
-        keys = [k.value for k in dicts[0].value.keys] if dicts else []
-        ob('R2', '%s._create_test_item' % name, cf.loc, sorted(keys) == sorted(declared), '_create_test_item builds keys %s, TestItem declares %s' % (sorted(keys), sorted(declared)))
+        # a dict display with constant keys is compared as written; one assembled from parts (**, a comprehension, a helper) is
+        # decided by R4, which compares the interpreted items - keys and values - with the model
+        literal = bool(dicts) and all(isinstance(k, ast.Constant) for k in dicts[0].value.keys)
+        keys = [k.value for k in dicts[0].value.keys] if literal else []
+        ob('R2', '%s._create_test_item' % name, cf.loc, (not literal) or sorted(keys) == sorted(declared), '_create_test_item builds keys %s, TestItem declares %s' % (sorted(keys), sorted(declared)))
         af = mod.fn('TestDataGenerator._add_test_item')
         reads = {x.slice.value for x in ast.walk(af.node) if isinstance(x, ast.Subscript) and isinstance(x.slice, ast.Constant) and isinstance(x.slice.value, str)}
         attrs = [x.attr for x in ast.walk(af.node) if isinstance(x, ast.Attribute) and isinstance(x.value, ast.Name) and x.value.id in ('item', 'current')]
